@@ -42,6 +42,7 @@ def run(run, model):
     # which inherited groups count as alternatives: a base without preconditions accepts every call (table A.3)
     from . import c04, rec
     run.do(c04.base_loop_table, model, "C01.inherited-accept-all")
+    run.do(meta.per_member_state, model, "C01.per-member-state")
     run.do(c04.override_target, model, "C01.inherited-groups-target", ("__preconditions__",))
     # the error raised is the contract's: building its message must not fail where Python's own evaluation succeeded
     run.do(rec.lookup, model, "C01.message-lookup")
